@@ -66,6 +66,11 @@ def _alternatives(trace, start, budget, kinds=None):
     return out
 
 
+def deviations(prefix) -> int:
+    """Number of non-default choices in a recorded schedule prefix."""
+    return sum(1 for c in prefix if c)
+
+
 def _subtree(scn, prefix, depth_left, kinds, stats, viols, summaries, cap):
     """DFS below `prefix` (which is itself executed here)."""
     stack = [(prefix, depth_left)]
@@ -80,7 +85,9 @@ def _subtree(scn, prefix, depth_left, kinds, stats, viols, summaries, cap):
         stats["steps"] += r["steps"]
         summaries[r["summary"]] += 1
         for key, what in r["viol"]:
-            if key not in viols:
+            # keep, per key, a schedule with the fewest deviations (the explanation that is easiest to
+            # follow, and the number callers may put into the key)
+            if key not in viols or deviations(pfx) < deviations(viols[key][1]):
                 viols[key] = (what, list(pfx))
         if left > 0:
             for alt in _alternatives(r["trace"], len(pfx), left, kinds):
@@ -122,7 +129,8 @@ def explore_deviations(scn: Scenario, D: int, kinds=None, seed=0, cap_per_worker
                 else:
                     stats[k] += v
             for k, v in vi.items():
-                viols.setdefault(k, v)
+                if k not in viols or deviations(v[1]) < deviations(viols[k][1]):
+                    viols[k] = v
             for k, v in su.items():
                 summaries[k] += v
     stats["wall_s"] = round(_time.time() - t0, 2)
@@ -172,7 +180,8 @@ def explore_family(scns, D, kinds=None, seed=0, cap_per_item=None, jobs=None):
                 for k, v in st.items():
                     r["stats"][k] += v
                 for k, v in vi.items():
-                    r["viols"].setdefault(k, v)
+                    if k not in r["viols"] or deviations(v[1]) < deviations(r["viols"][k][1]):
+                        r["viols"][k] = v
                 for k, v in su.items():
                     r["summaries"][k] += v
     wall = round(_time.time() - t0, 2)
